@@ -141,3 +141,44 @@ Proof.
     apply Nat.lt_le_trans with (i + 2); [|exact Hi].
     rewrite Nat.add_comm. cbn. apply le_n_S, le_n_S. exact Hbig.
 Qed.
+
+(* ---- wake-driven executors (tokio, FuturesUnordered): tasks are polled only after their
+        waker fired.  C12/WakeModel.v adds the futures-util Mutex's waiter slab, the wait_key of
+        each lock future and the executor's per-task "woken" bit to the model above. ---- *)
+From RM Require Import C12.WakeModel C12.WakeProofs C12.WakeBound.
+
+(* the instrumentation does not change behaviour: all theorems above apply to wake-driven runs *)
+Theorem c12_wake_refines : forall (c : config) (sched : list task),
+  base (wrun c sched) = run c sched.
+Proof. exact wrun_base. Qed.
+Print Assumptions c12_wake_refines.
+
+(* no lost wake-up: in every reachable state (after any polls, spurious ones included) with an
+   unfinished task, some unfinished task has been woken and not yet polled *)
+Theorem c12_no_lost_wakeup : forall (c : config) (sched : list task),
+  all_done c (run c sched) = false -> runnable c (wrun c sched) <> [].
+Proof. exact no_lost_wakeup. Qed.
+Print Assumptions c12_no_lost_wakeup.
+
+(* an executor that polls only woken tasks — whichever it picks — never runs dry and has
+   finished every task after at most 2 * work c + ntasks c polls; the run it performed is a
+   schedule of the plain model *)
+Theorem c12_wake_driven_finishes : forall (c : config) (fuel : nat) (picks : list nat),
+  2 * work c + ntasks c < fuel ->
+  exists w sched, wexec c fuel picks (winit c) [] = (w, sched, WDone) /\
+                  base w = run c sched /\ all_done c (run c sched) = true.
+Proof. exact wake_driven_finishes. Qed.
+Print Assumptions c12_wake_driven_finishes.
+
+(* after polling 0,1,2: task 2 sits in k0's waiter slab (index 0, Waiting), its bit is clear, and
+   only tasks 0 and 1 are runnable — wake-ups matter in this state *)
+Example c12_nonvacuous_waiter :
+  let w := wrun ex_cfg [0; 1; 2] in
+  wk (ext w) 2 = Some (0, 0, false) /\ flag (ext w) 2 = false /\ runnable ex_cfg w = [0; 1].
+Proof. vm_compute. repeat split. Qed.
+
+Example c12_nonvacuous_wake_driven :
+  let '(w, trace, st) := wexec ex_cfg 30 [2; 0; 1; 1; 0; 2; 1] (winit ex_cfg) [] in
+  st = WDone /\ trace = [2; 0; 2; 2; 0; 0; 1] /\ calls (sh (base w)) = [0; 1] /\
+  results (sh (base w)) 2 = [(0, OOk)].
+Proof. vm_compute. repeat split. Qed.
